@@ -91,6 +91,8 @@ inductive Op where
       change arbitrarily, the length does not -/
   | overwrite (k : Nat) (ws : List Nat)
   | intoSignTyped (k : Nat)
+  /-- `Zeroize::zeroize` (feature `zeroize`) on a `Buffer` or a `Repr`/`UBig`/`IBig` -/
+  | zeroize (k : Nat)
   -- any register
   | drop (k : Nat)
   deriving DecidableEq, Repr
@@ -105,6 +107,7 @@ def Op.target : Op → Nat
   | .cloneFromSliceFrom k _ | .bufCloneFrom k _ | .intoBoxedSlice k | .fromBuffer k
   | .intoBuffer k | .intoTyped k | .repCloneFrom k _ | .withSign k _ | .neg k | .asSlice k
   | .fromStaticWords k _ _ | .bufFromView k _ | .pushTailFrom k _ _ | .overwrite k _ | .intoSignTyped k
+  | .zeroize k
   | .drop k => k
 
 /-- run `f` on the empty register `k` -/
@@ -227,6 +230,11 @@ def step (W mx : Nat) (P : Pool) : Op → M Pool
       match o.2 with
       | .small lo hi => pure (.rep (Rep.fromDword lo hi))
       | .large b => pure (.buf b)
+  | .zeroize k =>
+      match P k with
+      | .buf _ => onBuf P k fun b => bufSlot (zeroizeBuf b)
+      | .rep _ => onRep P k fun r => repSlot (Rep.zeroize mx r)
+      | _ => illTyped
   | .drop k => match P k with
       | .empty => pure P
       | .buf b => do dropBuf b; pure (P.set k .empty)
